@@ -42,7 +42,35 @@ def _model_dict(m):
                     out[d.name()] = str(v)
             except Exception:  # pragma: no cover
                 out[d.name()] = str(v)
+        elif d.arity() <= 4 and not d.name().startswith(("SUM", "ack!")):
+            # function interpretation (symbolic input arrays are uninterpreted functions of their indices)
+            try:
+                fi = m[d]
+                ents = []
+                for k in range(min(fi.num_entries(), 64)):
+                    e = fi.entry(k)
+                    ents.append([_val(e.arg_value(j)) for j in range(e.num_args())] + [_val(e.value())])
+                out[d.name()] = {"__func__": ents, "else": _val(fi.else_value())}
+            except Exception:  # pragma: no cover
+                pass
     return out
+
+
+def _val(v):
+    if v is None:
+        return None
+    if z3.is_int_value(v):
+        return v.as_long()
+    if z3.is_rational_value(v):
+        return f"{v.numerator_as_long()}/{v.denominator_as_long()}"
+    if z3.is_algebraic_value(v):
+        a = v.approx(12)
+        return f"{a.numerator_as_long()}/{a.denominator_as_long()}"
+    if z3.is_true(v):
+        return True
+    if z3.is_false(v):
+        return False
+    return str(v)
 
 
 def to_smt2(formulas, logic=None):
@@ -69,7 +97,7 @@ def run_cli(cmd, smt2, timeout_s):
         os.unlink(path)
 
 
-def ackermannize(formulas):
+def ackermannize(formulas, mapping=None):
     """replace every uninterpreted-function application by a fresh constant and add the functional
     consistency constraints (equisatisfiable); makes mixed UF+NRA problems pure arithmetic"""
     import itertools
@@ -110,6 +138,8 @@ def ackermannize(formulas):
             raise ValueError("too many applications")
         for (a1, c1), (a2, c2) in itertools.combinations(lst, 2):
             out.append(z3.Implies(z3.And(*[x == y for x, y in zip(a1, a2)]), c1 == c2))
+    if mapping is not None:
+        mapping.update(apps)
     return out
 
 
@@ -129,8 +159,9 @@ def _has_int(formulas):
 
 def check_nlsat(formulas, timeout_s):
     """pure nonlinear real arithmetic via ackermannisation + nlsat"""
+    mapping = {}
     try:
-        fs = ackermannize(formulas)
+        fs = ackermannize(formulas, mapping)
     except ValueError:
         return "unknown", None
     if _has_int(fs):
@@ -147,7 +178,21 @@ def check_nlsat(formulas, timeout_s):
     if r == z3.unsat:
         return "unsat", None
     if r == z3.sat:
-        return "sat", _model_dict(s.model())
+        m = s.model()
+        md = _model_dict(m)
+        # map the ackermann constants back to function entries
+        for name, lst in mapping.items():
+            if name.startswith("SUM"):
+                continue
+            ents = []
+            for args, c in lst[:64]:
+                try:
+                    ents.append([_val(m.eval(a, model_completion=True)) for a in args] + [_val(m.eval(c, model_completion=True))])
+                except Exception:  # pragma: no cover
+                    pass
+            md[name] = {"__func__": ents, "else": None}
+        md = {k: v for k, v in md.items() if not k.startswith("ack!")}
+        return "sat", md
     return "unknown", None
 
 
@@ -305,6 +350,21 @@ def slice_assumptions(assumptions, goal):
 
 def prove(assumptions, goal, timeout_s=10, opts=None, rounds=2):
     """PROVED iff assumptions ∧ axiom-instances ∧ ¬goal is unsat"""
+    t0 = time.time()
+    try:
+        from . import ring
+        if ring.ring_proves(goal, (opts or {}).get("rewrites") or ()):
+            return Verdict(PROVED, "ring-normaliser", (time.time() - t0) * 1000)
+        if (opts or {}).get("ring_only") or (opts or {}).get("try_eval"):
+            model = ring.refute_by_evaluation(list(assumptions), goal, seed=(opts or {}).get("seed", 0))
+            if model is not None:
+                return Verdict(REFUTED, "ring-normaliser+exact-evaluation", (time.time() - t0) * 1000, model=model,
+                               reason="not an identity: the assumptions hold and the goal is false under the exact rational assignment in `model`")
+            if (opts or {}).get("ring_only"):
+                return Verdict(UNDECIDED, "ring-normaliser", (time.time() - t0) * 1000, reason="not established by ring identities; no falsifying assignment found by exact evaluation")
+    except Exception:  # pragma: no cover  (the normaliser is an accelerator; SMT decides otherwise)
+        if (opts or {}).get("ring_only"):
+            return Verdict(UNDECIDED, "ring-normaliser", (time.time() - t0) * 1000, reason="ring normaliser failed")
     if not (opts or {}).get("no_slice"):
         assumptions = slice_assumptions(list(assumptions), goal)
     base = [a for a in assumptions] + [z3.Not(goal)]
@@ -319,6 +379,13 @@ def prove(assumptions, goal, timeout_s=10, opts=None, rounds=2):
 
 
 def satisfiable(formulas, timeout_s=5, opts=None):
+    try:   # cheap: an exact rational assignment satisfying every formula (no solver involved)
+        from . import ring
+        m = ring.refute_by_evaluation(list(formulas), z3.BoolVal(False), tries=120)
+        if m is not None:
+            return "sat", m
+    except Exception:  # pragma: no cover
+        pass
     inst = axioms.saturate(list(formulas), rounds=1, opts=opts)
     res, model, backend, ms = check_formulas(list(formulas) + inst, timeout_s, second=False)
     return res, model
